@@ -55,10 +55,22 @@ def atom_nc(atom, stamps=frozenset()):
     return mk_nc([(z3.RealVal(1), (atom,))], stamps)
 
 
+def _sym_stamps(st):
+    return [x for x in st if isinstance(x[0], str) and x[0].startswith("sym:")]
+
+
 def hygiene(ip, a, b):
     sa, sb = stamps_of(a), stamps_of(b)
-    if any(st[2] for st in sa & sb):
+    plain_a = frozenset(x for x in sa if x not in _sym_stamps(sa))
+    plain_b = frozenset(x for x in sb if x not in _sym_stamps(sb))
+    if any(st[2] for st in plain_a & plain_b):
         ip.vc.check("index-hygiene#factors-of-a-product-share-contracted-indices", False)
+    # objects identified by a symbolic key (label, (tag, z3 term)): the two
+    # factors must provably be different objects
+    for la, (ta, ka), _ca in _sym_stamps(sa):
+        for lb, (tb, kb), _cb in _sym_stamps(sb):
+            if la == lb and ta == tb:
+                ip.vc.check("index-hygiene#cached-object-never-meets-itself-in-a-product", ka != kb)
     return sa | sb
 
 
@@ -109,6 +121,8 @@ _base_arith = C.STRUCT_ARITH["Expr"]
 
 
 def expr_arith_stamped(ip, opn, a, b):
+    if (isinstance(a, Struct) and a.cls == "NCV") or (isinstance(b, Struct) and b.cls == "NCV"):
+        return ncv_arith(ip, opn, a, b)
     if (isinstance(a, Struct) and a.cls == "NC") or (isinstance(b, Struct) and b.cls == "NC"):
         return nc_arith(ip, opn, a, b)
     r = _base_arith(ip, opn, a, b)
@@ -202,12 +216,26 @@ def sum_spec_unfold(vc, fn, args, k, summand):
 WORDVAL = z3.Function("WORDVAL", AtomSort, z3.RealSort())
 
 
+_WORDVALN = {}
+
+
+def word_value(word):
+    """value of a word under an arbitrary linear functional on the free
+    algebra, normalised to 1 on the empty word (scalars)"""
+    n = len(word)
+    if n == 0:
+        return z3.RealVal(1)
+    if n == 1:
+        return WORDVAL(word[0])
+    if n not in _WORDVALN:
+        _WORDVALN[n] = z3.Function(f"WORDVAL{n}", *([AtomSort] * n + [z3.RealSort()]))
+    return _WORDVALN[n](*word)
+
+
 def nc_linear_value(nc):
     t = z3.RealVal(0)
     for c, w in nc.f["terms"]:
-        if len(w) != 1:
-            raise Unsupported("formal sum with a word of more than one atom")
-        t = t + c * WORDVAL(w[0])
+        t = t + c * word_value(w)
     return t
 
 
@@ -222,6 +250,16 @@ def ncv_value(v):
 
 
 def ncv_arith(ip, opn, a, b):
+    if opn == "neg":
+        return Struct("NCV", val=-ncv_value(a), stamps=stamps_of(a))
+    if opn in ("Mult", "Div"):
+        # scalar multiple of an accumulated operator sum
+        ncv, other = (a, b) if isinstance(a, Struct) and a.cls == "NCV" else (b, a)
+        if (isinstance(other, Struct) and other.cls in ("NC", "NCV")) or (opn == "Div" and ncv is b):
+            raise Unsupported("product of operator valued quantities with an accumulated sum")
+        c = as_expr(other).f["val"]
+        st = hygiene(ip, a, b)
+        return Struct("NCV", val=ncv.f["val"] * c if opn == "Mult" else ncv.f["val"] / c, stamps=st)
     if opn in ("Add", "Sub"):
         va, vb = ncv_value(a), ncv_value(b)
         st = stamps_of(a) | stamps_of(b)
@@ -230,3 +268,4 @@ def ncv_arith(ip, opn, a, b):
 
 
 C.STRUCT_ARITH["NCV"] = ncv_arith
+C.STRUCT_METHODS[("NCV", "expand")] = lambda ip, o, a, k: o
